@@ -155,31 +155,37 @@ type rxRow struct {
 	Gsub      []string `json:"gsub"`
 }
 
-func regexBounds(quick bool) (nodesCS, lenCS, nodesCI, lenCI int) {
+func regexBounds(quick bool) (nodesCS, lenCS, nodesCI, lenCI, nodesU8, lenU8 int) {
 	if quick {
-		return 4, 4, 3, 3
+		return 4, 4, 3, 3, 3, 3
 	}
-	return 5, 4, 4, 3
+	return 6, 4, 4, 4, 4, 3
 }
 
 func regexWorker(w *vf.Worker) {
 	trap()
-	nodesCS, lenCS, nodesCI, lenCI := regexBounds(w.Quick())
+	nodesCS, lenCS, nodesCI, lenCI, nodesU8, lenU8 := regexBounds(w.Quick())
 	patsCS := allRegexes(nodesCS)
 	patsCI := allRegexes(nodesCI)
+	patsU8 := allRegexes(nodesU8)
 	subjCS := wordsOver("abc", lenCS)
 	subjCI := wordsOver("aAbc", lenCI)
+	subjU8 := wordsOver("a\u00e9\u65e5", lenU8) // '.' must consume one character, offsets must count characters
 
 	type job struct {
 		p  rx
 		ci bool
+		u8 bool
 	}
 	var jobs []job
 	for _, p := range patsCS {
-		jobs = append(jobs, job{p, false})
+		jobs = append(jobs, job{p, false, false})
 	}
 	for _, p := range patsCI {
-		jobs = append(jobs, job{p, true})
+		jobs = append(jobs, job{p, true, false})
+	}
+	for _, p := range patsU8 {
+		jobs = append(jobs, job{p, false, true})
 	}
 	var reqs []any
 	var mine []int
@@ -193,6 +199,9 @@ func regexWorker(w *vf.Worker) {
 		subj := subjCS
 		if j.ci {
 			subj = subjCI
+		}
+		if j.u8 {
+			subj = subjU8
 		}
 		ansAt[i] = len(reqs)
 		reqs = append(reqs, map[string]any{"k": "regex", "p": j.p.s, "ci": j.ci, "subj": subj, "repl": replacements, "orelse": orElse})
@@ -222,6 +231,9 @@ func regexWorker(w *vf.Worker) {
 		if j.ci {
 			subj = subjCI
 		}
+		if j.u8 {
+			subj = subjU8
+		}
 		for b := 0; b < len(rxSymNames); b++ {
 			if j.p.syms&(1<<uint(b)) != 0 {
 				w.Count("symbol:regex:"+rxSymNames[b], 1)
@@ -238,6 +250,9 @@ func regexWorker(w *vf.Worker) {
 		if j.ci {
 			rarg = `"` + j.p.s + `"i`
 			tag = "ci"
+		}
+		if j.u8 {
+			tag = "utf8"
 		}
 		for si, s := range subj {
 			row := rows[si]
@@ -256,7 +271,7 @@ func regexWorker(w *vf.Worker) {
 				}
 				continue
 			}
-			size := j.p.nodes + len(s)
+			size := j.p.nodes + len([]rune(s))
 			rp := func(extra map[string]any) map[string]any {
 				m := map[string]any{"regex": rarg, "subject": s}
 				for k, v := range extra {
